@@ -288,7 +288,7 @@ def run_property(pid: str, tier: str, seed: int) -> int:
     results = solve.run_many(queries + cover_queries, timeout=timeout)
     # a query that ran into its wall-clock limit is run once more with a longer limit and few solver processes at a
     # time, so that a verdict does not depend on how busy the machine is (the limits are wall-clock); a query that is
-    # still undecided then stays undecided.  At most 10 queries are retried: a change that breaks a contract can leave
+    # still undecided then stays undecided.  At most 24 queries are retried: a change that breaks a contract can leave
     # many obligations undecided, and reporting them must not take long.
     expected = {o.name: o.meta.get("expect", "unsat") for o in obligations + lemma_obs}
     slow = []
@@ -298,13 +298,13 @@ def run_property(pid: str, tier: str, seed: int) -> int:
         if expected.get(q[0]) == "nonunsat":
             continue  # an undecided query already meets this expectation
         if r.verdict == "unknown" and r.per_solver and any(sec >= 0.8 * limit for _, sec in r.per_solver.values()):
-            slow.append((q[0], q[1], q[2] if len(q) > 2 else None, limit * 4))
+            slow.append((q[0], q[1], q[2] if len(q) > 2 else None, limit * 5))
     retried = 0
     if slow:
         if os.environ.get("VERIF_LIST"):
-            print("  RETRY", [x[0] for x in slow[:10]])
-        retried = len(slow[:10])
-        results.update(solve.run_many(slow[:10], timeout=timeout * 4, workers=4))
+            print("  RETRY", [x[0] for x in slow[:24]])
+        retried = len(slow[:24])
+        results.update(solve.run_many(slow[:24], timeout=timeout * 5, workers=6))
     t_solve = time.time() - t_solve
     by_backend = {}
     discharged = 0
